@@ -12,7 +12,7 @@ PROP = dict(
             "decided end-to-end: handle_timer + real builder + real encoder in one query does not finish (symex alone > 10 min and > 8 GB for 4 fields; every encoder iteration "
             "dispatches on a symbolic field kind at a symbolic cursor position). It is covered piecewise: handle_timer's decisions (c14_poll_timer_*), the builder's field list "
             "(c13_poll_message_*), each field's encoded size (c14_ef_nofit), the sum (c14_budget), and the encoder loop itself by C24's round-trip harnesses. "
-            "Per-field encoded size for cookie lengths 65..=724 (the per-field harnesses c14_ef_size_* with L <= 128 already need > 8 GB in the solver, kept in c14.rs, not registered; the encoder is the same loop, 32 bytes of zeros per iteration). Sizes of the fixed fields (unique id 36, draft id 28, reference-id request 20, authenticator 40 bytes) are taken from the wire format, not from a harness. "
+            "Per-field encoded size for cookie lengths 65..=724 (the per-field harnesses c14_ef_size_* with L <= 128 already need > 8 GB in the solver, kept in c14.rs, not registered; the encoder is the same loop, 32 bytes of zeros per iteration). Sizes of the fixed fields (unique id 36, draft id 28, authenticator 40 bytes) are taken from the wire format, not from a harness; the reference-id request is 4 bytes + the Bloom-filter chunk size READ FROM THE SOURCE under test (so a constructor that picks a larger chunk is seen). "
             "Cookies longer than 1024 bytes (a 1024-byte receive buffer cannot deliver them)",
     assumptions=[
         "ideal AEAD sizes for the request authenticator: nonce 16 bytes, ciphertext = plaintext + 16 (AES-SIV)",
